@@ -1291,6 +1291,10 @@ impl Handler {
             // the request that was used to re-establish the session handshake.
             self.replay_active_requests(&node_address, message_nonce)
                 .await;
+            // Requests may have been queued behind the challenge that this handshake answered
+            // (or behind the session that was being established). Nothing else releases them
+            // once the session exists, so process them here as well.
+            self.send_pending_requests(&node_address).await;
         } else {
             self.sessions.insert(node_address.clone(), session);
             METRICS
